@@ -100,13 +100,29 @@ def _dot(ctx, p, rng):
     sa = tuple(int(v) for v in rng.integers(1, 4, size=ra - 1)) + (k,)
     sb = (k,) if rb == 1 else tuple(int(v) for v in rng.integers(1, 4, size=rb - 2)) + (k, int(rng.integers(1, 4)))
     a = rng.normal(size=(D, P) + sa); b = rng.normal(size=(D, P) + sb)
+    ucplx = rng.random() < 0.25          # complex polynomial operand(s)
+    if ucplx:
+        a = a + 1j * rng.normal(size=a.shape) if kinds[0] == 'U' else a
+        b = b + 1j * rng.normal(size=b.shape) if kinds[1] == 'U' else b
+    cdt = ['float64', 'int64', 'float32', 'complex128'][int(rng.integers(4))] if kinds != 'UU' else 'float64'
+
+    def const(c):
+        c = c[0, 0]
+        if cdt == 'int64':
+            return np.round(3 * c).astype(np.int64)
+        if cdt == 'float32':
+            return c.astype(np.float32)
+        if cdt == 'complex128':
+            return c + 1j * rng.normal(size=c.shape)
+        return c.copy()
+    layout = gen.LAYOUTS[int(rng.integers(len(gen.LAYOUTS)))]
     if kinds == 'UA':
-        b[1:] = 0; b[0, 1:] = b[0, 0]
+        Bc = const(b); b = lin.lift(Bc.astype(complex if np.iscomplexobj(Bc) else float), D, P)
     if kinds == 'AU':
-        a[1:] = 0; a[0, 1:] = a[0, 0]
-    A = UTPM(a.copy()) if kinds[0] == 'U' else a[0, 0].copy()
-    B = UTPM(b.copy()) if kinds[1] == 'U' else b[0, 0].copy()
-    mech = 'dot:%s:%dx%d' % (kinds, ra, rb)
+        Ac = const(a); a = lin.lift(Ac.astype(complex if np.iscomplexobj(Ac) else float), D, P)
+    A = UTPM(gen.relayout(a, layout)) if kinds[0] == 'U' else Ac
+    B = UTPM(gen.relayout(b, layout)) if kinds[1] == 'U' else Bc
+    mech = 'dot:%s:%dx%d' % (kinds, ra, rb) + ('' if cdt == 'float64' else ':const-' + cdt) + (':complex' if ucplx else '')
     entry = [algopy.dot, UTPM.dot][int(rng.integers(2))]
     ok, r = _call(ctx, mech, entry, A, B)
     if not ok:
@@ -117,7 +133,7 @@ def _dot(ctx, p, rng):
     e = lin.rel_residual(r.data - ref, maj)
     if not e <= TAU_BIL:
         ctx.violation(mech + ':value', {'kinds': kinds, 'sa': sa, 'sb': sb, 'D': D, 'P': P, 'err_over_majorant': e}); return
-    ctx.ok('dot:' + kinds, ('dot', kinds, ra, rb, D, P), noise=e,
+    ctx.ok('dot:' + kinds, ('dot', kinds, ra, rb, D, P, cdt, ucplx, layout), noise=e,
            sample={'op': 'dot', 'kinds': kinds, 'a_shape': sa, 'b_shape': sb, 'D': D, 'P': P, 'err_over_majorant': e} if rng.random() < .03 else None)
 
 
